@@ -102,7 +102,7 @@ pub fn run(tier: &str) -> i32 {
     let rep = Report::new("C16", tier, "model_checking");
     let thorough = rep.thorough();
     let maxlen = if thorough { 5 } else { 4 };
-    rep.rule(&format!("(a) ALL operation sequences of length <= {maxlen} over add(id in {{0,1,5}}, c in {{AA,BB}}) / remove(id) / save+reopen(sync|async) from fresh sync and async objects, executed without state merging, grouped by (final content, compression, writer flavour): one byte image per group; (b) all 720 [thorough: 5040] insertion orders of 6 [7] tiles; (b2) all 120 insertion orders of 5 metadata keys x nested-key order x remove/re-insert detour; (c) every small map written from memory, from a reopened copy and from a mixed object: identical bytes; (d) 66 archives (two of them with several leaf directories) written in {} separate OS processes, and the two multi-leaf ones six times in this process: identical digests; (e) rewrite: to_writer(from_bytes(b)) == b for every archive of the C01 corpus, foreign archives idempotent after one normalising rewrite; non-trivial = groups with >= 2 histories", if thorough { 16 } else { 4 }));
+    rep.rule(&format!("(a) ALL operation sequences of length <= {maxlen} over add(id in {{0,1,5}}, c in {{AA,BB}}) / remove(id) / save+reopen(sync|async) from fresh sync and async objects, executed without state merging, grouped by (final content, compression, writer flavour): one byte image per group; (b) all 720 [thorough: 5040] insertion orders of 6 [7] tiles; (b2) all 120 insertion orders of 5 metadata keys x nested-key order x remove/re-insert detour; (c) every small map written from memory, from a reopened copy and from a mixed object: identical bytes; (d) 66 archives (two of them with several leaf directories) written in {} separate OS processes, and the two multi-leaf ones six times in this process: identical digests; (d1) async writer: identical bytes into an always-ready sink and into one that is Pending once per call with short writes; (e) rewrite: to_writer(from_bytes(b)) == b for every archive of the C01 corpus, foreign archives idempotent after one normalising rewrite; non-trivial = groups with >= 2 histories", if thorough { 16 } else { 4 }));
     rep.assume("compressed bytes are compared as produced by the same codec configuration within one writer flavour (sync and async writers use different encoders and are never compared with each other)");
 
     // ---- (a) histories
@@ -302,6 +302,38 @@ pub fn run(tier: &str) -> i32 {
         rep.eval(jobs.len() as u64);
         rep.count("repeated_multi_leaf_writes", jobs.len() as u64);
     }
+    // ---- (d1) the async writer's bytes do not depend on how its sink takes them: every archive of the process corpus and
+    // every small map over 3 ids written into an always-ready cursor and into a sink that is Pending once per call and
+    // takes at most 7 (archives below 600 bytes) or 1000 bytes per write
+    {
+        let mut subjects = process_corpus();
+        for c in COMPS {
+            subjects.extend(small_maps(3, c));
+        }
+        let res: Vec<(usize, Option<String>)> = subjects
+            .par_iter()
+            .enumerate()
+            .map(|(i, l)| {
+                let fast = write_lib(l, Api::Async);
+                let r = match &fast {
+                    Ok(f) => match write_lib_async_slow(l, if f.len() < 600 { 7 } else { 1000 }) {
+                        Ok(s) if &s == f => None,
+                        Ok(s) => Some(format!("the async writer emits different bytes into a slow sink ({})", first_diff(f, &s))),
+                        Err(e) => Some(format!("the async writer fails on a slow sink: {e}")),
+                    },
+                    Err(e) => Some(format!("write failed: {e}")),
+                };
+                (i, r)
+            })
+            .collect();
+        rep.eval(subjects.len() as u64 * 2);
+        rep.count("async_writes_into_slow_sinks", subjects.len() as u64);
+        for (i, r) in res {
+            if let Some(d) = r {
+                rep.violation("sink-dependent-bytes", d, json!({"kind":"slow-sink","index":i,"archive": if subjects[i].tiles.len() < 10 { logical_to_json(&subjects[i]) } else { json!(format!("process corpus {i}")) }}));
+            }
+        }
+    }
     // ---- (d) separate OS processes
     let nproc = if thorough { 16 } else { 4 };
     let exe = std::env::current_exe().unwrap();
@@ -450,6 +482,17 @@ fn permute(v: &mut Vec<u64>, k: usize, out: &mut Vec<Vec<u64>>) {
 
 pub fn replay(case: &Value) -> Vec<String> {
     match case["kind"].as_str() {
+        Some("slow-sink") => {
+            let mut subjects = process_corpus();
+            for c in COMPS {
+                subjects.extend(small_maps(3, c));
+            }
+            let l = &subjects[(case["index"].as_u64().unwrap_or(0) as usize).min(subjects.len() - 1)];
+            match (write_lib(l, Api::Async), write_lib_async_slow(l, 7), write_lib_async_slow(l, 1000)) {
+                (Ok(f), Ok(a), Ok(b)) if f == a && f == b => vec![],
+                _ => vec!["the async writer's bytes depend on its sink".to_string()],
+            }
+        }
         Some("repeated-write") => {
             let pc = process_corpus();
             let i = case["index"].as_u64().unwrap_or(64) as usize;
